@@ -9,6 +9,10 @@ use super::guard::Guard;
 use super::sync::once_lock::OnceLock;
 
 fn collector() -> &'static Collector {
+    #[cfg(feature = "circ_verif")]
+    if let Some(c) = crate::verif::default_override() {
+        return c;
+    }
     /// The global data for the default garbage collector.
     static COLLECTOR: OnceLock<Collector> = OnceLock::new();
     COLLECTOR.get_or_init(Collector::new)
@@ -38,6 +42,14 @@ where
     HANDLE
         .try_with(|h| f(h))
         .unwrap_or_else(|_| f(&collector().register()))
+}
+
+#[cfg(feature = "circ_verif")]
+pub(crate) fn verif_with_handle<F, R>(f: F) -> R
+where
+    F: FnMut(&LocalHandle) -> R,
+{
+    with_handle(f)
 }
 
 #[inline]
